@@ -12,9 +12,12 @@ package main
 
 import (
 	"bytes"
+	"crypto/sha1"
+	"encoding/hex"
 	"encoding/json"
 	"fmt"
 	"io"
+	"io/fs"
 	"os"
 	"os/exec"
 	"path/filepath"
@@ -43,6 +46,7 @@ type logRec struct {
 	Pid       int      `json:"pid"`
 	Phase     string   `json:"phase"`              // "start" when the invocation begins, "end" when it is over
 	OutText   string   `json:"out_text,omitempty"` // what `rev-parse` answered (small)
+	Snap      string   `json:"snap,omitempty"`     // digest of VERIF_SNAP_DIR when the invocation began
 }
 
 func appendLog(rec logRec) {
@@ -100,6 +104,10 @@ func main() {
 	joined := strings.Join(args, " ") + " "
 	cwd, _ := os.Getwd()
 	rec := logRec{Argv: args, GitDir: os.Getenv("GIT_DIR"), GraftFile: os.Getenv("GIT_GRAFT_FILE"), Cwd: cwd, Pid: os.Getpid(), Phase: "start"}
+	if d := os.Getenv("VERIF_SNAP_DIR"); d != "" {
+		// what the repository looks like WHILE git-sizer runs: every file, mode and content below the directory
+		rec.Snap = dirDigest(d)
+	}
 	appendLog(rec) // the order of the start lines is the order in which git-sizer launched its children
 	rec.Phase = "end"
 	var fl *fault
@@ -109,6 +117,19 @@ func main() {
 			dir := os.Getenv("VERIF_FAULT_DIR")
 			if dir != "" && ordinal(dir, f.Match) == f.Nth {
 				fl = &f
+			}
+			if fl != nil && (f.Mode == "killparent" || f.Mode == "termparent") {
+				// git-sizer itself is stopped from outside at this moment of its run
+				sig := syscall.SIGKILL
+				if f.Mode == "termparent" {
+					sig = syscall.SIGTERM
+				}
+				rec.Faulted = true
+				rec.Phase = "end"
+				rec.Exit = 128 + int(sig)
+				appendLog(rec)
+				syscall.Kill(os.Getppid(), sig)
+				os.Exit(rec.Exit)
 			}
 		}
 	}
@@ -207,6 +228,32 @@ func main() {
 		dieBySIGPIPE()
 	}
 	os.Exit(rec.Exit)
+}
+
+// dirDigest is cmd/vcheck's dirDigest: paths, modes, link targets, sizes and content hashes of everything below dir.
+func dirDigest(dir string) string {
+	h := sha1.New()
+	filepath.WalkDir(dir, func(p string, d fs.DirEntry, err error) error {
+		if err != nil {
+			fmt.Fprintf(h, "ERR %s\n", p)
+			return nil
+		}
+		info, _ := d.Info()
+		rel, _ := filepath.Rel(dir, p)
+		fmt.Fprintf(h, "%s %v ", rel, info.Mode())
+		if d.Type()&fs.ModeSymlink != 0 {
+			t, _ := os.Readlink(p)
+			fmt.Fprintf(h, "-> %s\n", t)
+		} else if !d.IsDir() {
+			b, _ := os.ReadFile(p)
+			s := sha1.Sum(b)
+			fmt.Fprintf(h, "%d %x\n", len(b), s)
+		} else {
+			fmt.Fprintln(h)
+		}
+		return nil
+	})
+	return hex.EncodeToString(h.Sum(nil))
 }
 
 // dieBySIGPIPE: the Go runtime ignores a SIGPIPE that was not raised by a write to fd 1 or 2, so the process
